@@ -116,8 +116,8 @@ Print Assumptions C08_oversized_meaning.
 
 (* the three framings spelled out, whole response in one read into a fresh reader, any ending *)
 Theorem C08_oversized_clen :
-  forall stale limit ishead r pos e,
-    wf_response ishead r = true -> p_framing r = FrClen pos -> limit < lenN (p_body r) ->
+  forall stale limit ishead r pos ds e,
+    wf_response ishead r = true -> p_framing r = FrClen pos ds -> limit < lenN (p_body r) ->
     http_response_run repo_terminated stale init_rdr limit ishead (mkNet [render r] e)
     = Ok (Done [CbResp (Z.of_N (m_status (p_final r))) (map nv (final_fields r)) true size_max []]).
 Proof. exact oversized_clen. Qed.
